@@ -196,7 +196,17 @@ def streams(rng, tier):
                     if lo <= x <= hi:
                         rt_ops.append(f"rt {kind} {kind}:{x}")
     rt_ops = list(dict.fromkeys(rt_ops))
-    s1 = Stream("roundtrip", "hserde", rt_ops, model_ops=[model_op(o) for o in rt_ops], judge=judge_rt, rule=RULE)
+    # failed to_vec calls in between (a Serialize impl that gives up after k elements): nothing of them may show in the next value's bytes
+    mixed, k = [], 0
+    for i, o in enumerate(rt_ops):
+        if i % 29 == 7:
+            mixed.append(f"serfail {[0, 1, 3, 24, 300][k % 5]} bridge"); k += 1
+        mixed.append(o)
+    def judge_rt2(op, impl, model, spec):
+        if op.startswith("serfail"):
+            return "ok" if impl == "err | -" else "violation"
+        return judge_rt(op, impl, model, spec)
+    s1 = Stream("roundtrip", "hserde", mixed, model_ops=["nop" if o.startswith("serfail") else model_op(o) for o in mixed], judge=judge_rt2, rule=RULE)
     s2 = Stream("reframed", "hserde", de_ops, model_ops=[model_op(o) for o in de_ops], judge=judge_de,
                 rule="de <type> <re-framed encoding> #m=<mode> #v=<expected value>")
     s3 = Stream("hostile", "hserde", hostile, model_ops=[model_op(o) for o in hostile], judge=judge_de,
